@@ -875,6 +875,19 @@ func c04Run(cfg c04Cfg) (res c04Res) {
 	tick := time.NewTicker(2 * time.Millisecond)
 	defer tick.Stop()
 	released := false
+	// The census dumps every goroutine stack with the world stopped: with hundreds of goroutines
+	// (and GOMAXPROCS 1 in some C08 schedules) one census costs more than a tick and the monitor
+	// would starve the transfer it watches.  Keep its duty cycle below ~10 %: after a census that
+	// took d, the next one is not taken before 9 d have passed.
+	var nextCensus time.Time
+	census := func() (int, int) {
+		t0 := time.Now()
+		total, blocked := c04Census()
+		if d := time.Since(t0); d > 200*time.Microsecond {
+			nextCensus = time.Now().Add(9 * d)
+		}
+		return total, blocked
+	}
 loop:
 	for pending > 0 {
 		select {
@@ -903,11 +916,11 @@ loop:
 					res.Hung = true
 					break loop
 				}
-				if len(sdone)+len(rdone) > 0 {
+				if len(sdone)+len(rdone) > 0 || time.Now().Before(nextCensus) {
 					continue
 				}
 				act := atomic.LoadInt64(&pair.activity)
-				total, blocked := c04Census()
+				total, blocked := census()
 				if total-base >= pending && total == blocked && act == lastAct {
 					quietRuns++
 				} else {
@@ -920,16 +933,26 @@ loop:
 				}
 				continue
 			}
+			if os.Getenv("VERIF_C0408_DEBUG") != "" && int(time.Since(start)/(2*time.Millisecond))%2500 == 0 {
+				fmt.Fprintf(os.Stderr, "  t=%v activity=%d goroutines=%d procs=%d\n", time.Since(start).Round(time.Second), atomic.LoadInt64(&pair.activity), runtime.NumGoroutine(), runtime.GOMAXPROCS(0))
+			}
 			if time.Since(start) > 40*time.Second {
 				res.TimedOut = true
+				if os.Getenv("VERIF_C0408_DEBUG") != "" {
+					buf := make([]byte, 64<<20)
+					os.WriteFile(filepath.Join(os.TempDir(), "c0408-timeout-stacks.txt"), buf[:runtime.Stack(buf, true)], 0644)
+				}
 				tear()
 				continue
 			}
 			if len(sdone)+len(rdone) > 0 {
 				continue // a call has returned: handle that first
 			}
+			if time.Now().Before(nextCensus) {
+				continue
+			}
 			act := atomic.LoadInt64(&pair.activity)
-			total, blocked := c04Census()
+			total, blocked := census()
 			if total-base >= pending && total == blocked && act == lastAct {
 				quietRuns++
 			} else {
@@ -1673,6 +1696,9 @@ func run0801(in Sx) (out Sx) {
 		// every fourth schedule: the source Opens are held until the sender's listing is complete
 		// (the walker runs ahead of the data, bounded stream)
 		res := c04Run(c04Cfg{View: view, Dest: dest, Cap: capacity, Chunk: chunk, Scribble: true, Perturb: perturb, Stall: -1, SumGate: sumGate, OpenGate: s%4 == 2, Progress: true})
+		if os.Getenv("VERIF_C0408_DEBUG") != "" {
+			fmt.Fprintf(os.Stderr, "c08 schedule %d cap=%d: send=%v recv=%v quiesced=%v timedout=%v hung=%v\n", s, capacity, res.SendErr, res.RecvErr, res.Quiesced, res.TimedOut, res.Hung)
+		}
 		eq := !res.Hung && len(c04DestDiff(view, dest)) == 0
 		dg := ""
 		if !res.Hung {
